@@ -36,6 +36,9 @@ MODULES = [
     "odata_query.sql.athena",
     "odata_query.django.utils",
     "odata_query.django.django_q_ext",
+    "odata_query.django.shorthand",
+    "odata_query.sqlalchemy.shorthand",
+    "odata_query.sqlalchemy.functions_ext",
     "odata_query.django.django_q",
     "odata_query.sqlalchemy.common",
     "odata_query.sqlalchemy.orm",
